@@ -24,7 +24,7 @@ from vf.core import Res, HarnessError
 
 OUTERS = ['flush', 'flush', 'flush_multi', 'immediate', 'remove', 'replace',
           'clear']
-ACTIONS = ['readd_self', 'remove_sibling', 'remove_all_siblings', 'add_new',
+ACTIONS = ['respawn_same_id', 'add_same_type', 'proc_spawns', 'readd_self', 'remove_sibling', 'remove_all_siblings', 'add_new',
            'delete_self_imm', 'delete_self_def', 'delete_other_imm',
            'delete_other_def', 'create_other', 'clear', 'nop']
 
@@ -108,6 +108,17 @@ def run(case):
         w.add_processor(type(f'RP{i}', (desper.Processor,),
                              {'process': process})())
 
+    if case['action'] == 'proc_spawns':
+        def p_on_remove(self_):
+            res.tags['action_run'].add(f"{case['outer']}/proc_spawns")
+            c = new(extra_cls)
+            owner[c.uid] = '?'
+            w.create_entity(c)
+        w.add_processor(desper.event_handler('on_remove')(type(
+            'SpawningProc', (desper.Processor,),
+            {'process': lambda self_, dt=1: None,
+             'on_remove': p_on_remove}))())
+
     # ---- build
     mine = [new(classes[i]) for i in case['order']]
     E = 'E' if case['custom_id'] else None
@@ -133,7 +144,29 @@ def run(case):
     def act():
         a = case['action']
         res.tags['action_run'].add(f"{case['outer']}/{a}")
-        if a == 'readd_self':
+        if a == 'respawn_same_id':
+            # "restart": what is left of the entity goes at once and a new
+            # entity with components of the same types takes over its id
+            if outer in ('flush', 'flush_multi', 'immediate') \
+                    and case['custom_id']:
+                if w.get_components(E):
+                    w.delete_entity(E, immediate=True)
+                fresh = [new(type(s)) for s in siblings]
+                for c in fresh:
+                    owner[c.uid] = E
+                    respawned.append(c.uid)
+                if fresh:
+                    w.create_entity(*fresh, entity_id=E)
+        elif a == 'add_same_type':
+            # a component of the actor's own type is attached again to E
+            # (during a replacement: while the incoming one is on its way)
+            if outer in ('replace', 'remove'):
+                c = new(type(actor))
+                owner[c.uid] = E
+                w.add_component(E, c)
+        elif a == 'proc_spawns':
+            pass        # acted by the processor below, not by the component
+        elif a == 'readd_self':
             # the component attaches itself to another entity (a pickup
             # changing hands) from inside its own on_remove
             dest = others[0] if w.get_components(others[0]) else others[-1]
@@ -167,6 +200,8 @@ def run(case):
             owner[c.uid] = w.create_entity(c)
         elif a == 'clear':
             w.clear()
+
+    respawned = []      # components of a new entity created under E's id
 
     def sweep(at):
         """All queries tell the same story; listeners == attached."""
@@ -309,8 +344,21 @@ def run(case):
         attached = sweep(2)
         if attached is None or not judge_components(2, attached):
             return res
+        if respawned:
+            res.stats['respawns_under_the_dying_id'] += 1
+            missing = [u for u in respawned if attached.get(u) != E]
+            if missing or not w.entity_exists(E):
+                res.div(2, 'reentry-new-entity-damaged', 'an on_remove of '
+                        'the entity being deleted created a NEW entity under '
+                        'the same id; the deletion in progress went on and '
+                        'took components from it', 'all of its components '
+                        'attached, entity exists',
+                        {'missing': missing, 'exists': w.entity_exists(E)})
+                return res
+            res.nontrivial = True
+            return res
         whole = outer in ('flush', 'flush_multi', 'immediate', 'clear')
-        grows = case['action'] in ('add_new',)
+        grows = case['action'] in ('add_new',) or bool(respawned)
         if whole and not grows:
             left = [c.uid for c in w.get_components(E)]
             if left or w.entity_exists(E) or E in w.entities:
